@@ -131,7 +131,7 @@ class MultivariateNormal(TMultivariateNormal, Distribution):
             dimensionality of the random variable. The first (second) Tensor is the
             lower (upper) end of the confidence region.
         """
-        std2 = self.stddev.mul_(2)
+        std2 = self.stddev.mul(2)
         mean = self.mean
         return mean.sub(std2), mean.add(std2)
 
